@@ -22,6 +22,21 @@ class Budget(Exception):
     """Raised inside a shard when its time budget is exhausted."""
 
 
+def replay_by_index(ctx, mod, case):
+    """Generic replay for workloads that are a seeded stream of cases: regenerate the stream of the recorded shard up to
+    the recorded index and keep only what that case reports."""
+    info = case.get("replay")
+    if not info:
+        return False
+    sub = Ctx(ctx.prop, ctx.tier, info["seed"], info["shard"], info["nshards"], 3600, replay=True)
+    mod.run_shard(sub, upto=info["i"])
+    for key, v in sub.violations.items():
+        for w in v["witnesses"]:
+            if w.get("case", {}).get("replay", {}).get("i") == info["i"]:
+                ctx.violation(key, w)
+    return True
+
+
 class Ctx:
     MAX_WITNESSES_PER_KEY = 3
     MAX_SAMPLES = 4
@@ -44,6 +59,7 @@ class Ctx:
         self.notes = []
         self.truncated_by_time = False
         self._case_no = 0
+        self.replay_info = None  # {"shard":..,"nshards":..,"seed":..,"i":..} set by workloads that are replayed by index
 
     # -- randomness -------------------------------------------------------
     def rng(self, stream=""):
@@ -96,6 +112,11 @@ class Ctx:
         """key: mechanism key (structure of the failure, never a seed or hash).
         witness: JSON-able dict holding the case, what was observed and what
         was expected."""
+        if self.replay_info is not None and isinstance(witness, dict):
+            # lets `./run replay` regenerate exactly this case from the seeded stream
+            c = witness.setdefault("case", {})
+            if isinstance(c, dict):
+                c.setdefault("replay", dict(self.replay_info))
         v = self.violations.setdefault(key, {"count": 0, "witnesses": []})
         v["count"] += 1
         if len(v["witnesses"]) < self.MAX_WITNESSES_PER_KEY:
